@@ -70,7 +70,12 @@ func (x *opPath) Validate(rootValue cue.Value, cuePath CuePath, blockedRootField
 		rootPart.Type.IOType = IOOT_Single
 	}
 
-	availableFields, err := getAvailableFieldsForValue(cuePathValue, blockedRootFields)
+	blockedHere := blockedRootFields
+	if len(cuePath) > 0 {
+		blockedHere = nil
+	}
+
+	availableFields, err := getAvailableFieldsForValue(cuePathValue, blockedHere)
 	if err != nil {
 		return errFunc(fmt.Errorf("failed to list available fields from cue: %w", err))
 	}
@@ -149,7 +154,9 @@ func (x *opPath) Validate(rootValue cue.Value, cuePath CuePath, blockedRootField
 			if !foundFirstIdent {
 				rdm[t.IdentName] = struct{}{}
 				foundFirstIdent = true
-				if strInStrSlice(t.IdentName, blockedRootFields) {
+				// only a field of the root can be blocked: the first key of an `@` path below the root is a
+				// field of the value the path starts at
+				if len(cuePath) == 0 && strInStrSlice(t.IdentName, blockedRootFields) {
 					errMessage := "field " + t.IdentName + " is not available"
 					path.Parts = append(path.Parts, &PathIdent{
 						pathIdentFields: pathIdentFields{
